@@ -81,7 +81,8 @@ class EOSDriverBase:
             raise ScrapliValueError(msg)
         sess_prompt = re.escape(session_name[:6])
         pattern = (
-            rf"^[\w.\-@()/: ]{{1,63}}\(config\-s\-{sess_prompt}[a-z0-9_.\-@/:+]{{0,64}}\)#\s?$"
+            rf"^[\w.\-@()/: ]{{1,63}}\(config\-s\-{sess_prompt}"
+            rf"(?:\-[a-z0-9_.\-@/:+]{{0,64}})?\)#\s?$"
         )
         name = session_name
         config_session = PrivilegeLevel(
